@@ -9,8 +9,8 @@ from checks import common
 
 ID = 'C05'
 LEVEL = 'exploration'
-TIERS = {'quick': 6000, 'thorough': 400000}
-BUDGET = {'quick': 150, 'thorough': 3000}
+TIERS = {"quick": 40000, "thorough": 3000000}
+BUDGET = {"quick": 120, "thorough": 1500}
 RULE = ('seeded plans: universe descriptor + 1..4 values + codec + stream kind + drop-threshold knob + '
         'deliver/poll/would-block/short-read/close steps, plus per-stream sweeps of every single split '
         'point; a run is non-trivial when at least one injected fault fired or at least one underrun '
